@@ -2,7 +2,24 @@
 
 package commitlog
 
-// execMore: ops beyond the core set (cleaning, timestamps lookups, reverse reads ...).
+import (
+	"strconv"
+	"time"
+)
+
+// execMore: ops beyond the core set (cleaning, timestamp lookups, reverse reads ...).
 func (v *vLogImpl) execMore(f []string) string {
+	switch f[0] {
+	case "clean":
+		ttl, _ := strconv.ParseInt(f[1], 10, 64)
+		old := computeTTL
+		computeTTL = func(time.Duration) int64 { return ttl }
+		err := v.l.Clean()
+		computeTTL = old
+		if err != nil {
+			return "err " + vErrEnum(err) + " | " + v.state()
+		}
+		return "ok | " + v.state()
+	}
 	return "bad-op"
 }
